@@ -406,6 +406,9 @@ def prove_scenario(scn, *, seed=0, crosscheck=2, max_paths=4000, timeout_ms=1000
                         continue
                     if r is False:
                         env = find_point(mk.decls, assumptions + [goal.negate()], rng, fns=fns)
+                        if env is None and _abstracted(assumptions + [goal]):
+                            raise Undecided("claim %s[%d]: the solver's counter-model lives on the abstraction of exp/log/function atoms and no real point of the "
+                                            "domain violates %s %s (incomplete, not a refutation)" % (name, k, nf.show(x, 6), kind))
                         raise Refuted("claim %s[%d]: %s %s fails under the precondition (z3 sat)" % (name, k, nf.show(x, 8), kind),
                                       witness={"claim": name, "env": env}, replay=_with_env(replay, env),
                                       confirmed=_confirm(scn, mk.decls, assumptions + [goal.negate()], rng, name, fns, rtol, env))
@@ -430,6 +433,9 @@ def prove_scenario(scn, *, seed=0, crosscheck=2, max_paths=4000, timeout_ms=1000
                     n_smt += 1
                     if r is None:
                         raise Undecided("claim %s: solver unknown" % name)
+                    if r is False and _abstracted(assumptions + [v]) and find_point(mk.decls, assumptions + [v.negate()], rng, fns=fns) is None:
+                        raise Undecided("claim %s: the solver's counter-model lives on the abstraction of exp/log/function atoms and no real point of the "
+                                        "domain violates the claim (incomplete, not a refutation)" % name)
                     v = r
                 if not v:
                     raise Refuted("claim %s is false%s" % (name, (": " + str(cl[3])) if len(cl) > 3 else ""),
@@ -567,6 +573,19 @@ def _with_env(replay, env):
     r = dict(replay)
     r["env"] = env
     return r
+
+
+def _abstracted(conds):
+    """True when the SMT translation of these conditions abstracts something: atoms other than variables, roots and constants are plain
+    positive/real unknowns for z3, so its 'sat' is a model of the abstraction only"""
+    for c in conds:
+        e = getattr(c, "expr", None)
+        if e is None:
+            continue
+        for i in nf.all_atoms(e):
+            if nf.ATOMS.atoms[i][0] not in ("var", "root", "cpow"):
+                return True
+    return False
 
 
 def _confirm(scn, decls, assumptions, rng, name, fns, rtol, env=None):
@@ -739,21 +758,34 @@ def el(x, idx=()):
     return x
 
 
+def _is_mp(x):
+    return type(x).__module__.startswith("mpmath")
+
+
 def slog(x):
     if isinstance(x, nf.RF):
         return nf.rlog(x)
+    if _is_mp(x):
+        import mpmath
+        return mpmath.log(x)
     return math.log(x)
 
 
 def sexp(x):
     if isinstance(x, nf.RF):
         return nf.rexp(x)
+    if _is_mp(x):
+        import mpmath
+        return mpmath.exp(x)
     return math.exp(x)
 
 
 def ssqrt(x):
     if isinstance(x, nf.RF):
         return nf.rsqrt(x)
+    if _is_mp(x):
+        import mpmath
+        return mpmath.sqrt(x)
     return math.sqrt(x)
 
 
